@@ -18,6 +18,22 @@ Proof.
   - destruct (B H) as [g Hg]. exists g. rewrite Hg. cbn [rbind nexp ROps]. repeat split. apply exp_pos.
 Qed.
 
+(** Gamma is exp(GammaLn) at EVERY x > 0, however large the result: there is no bound above which the answer is replaced by anything else.
+    ln undoes it; Gamma exceeds M > 0 exactly when GammaLn exceeds ln M; the order of two answers of Gamma is the order of the two GammaLn. *)
+Lemma gamma_no_threshold x : 0 < x ->
+  exists g v, gammaln ROps x = Ok g /\ gamma ROps x = Ok v /\ ln v = g /\
+    (forall M, 0 < M -> (M < v <-> ln M < g)) /\
+    (forall y gy vy, gammaln ROps y = Ok gy -> gamma ROps y = Ok vy -> (v < vy <-> g < gy)).
+Proof.
+  intros Hx. destruct (proj2 (gamma_domain x) Hx) as [g [Hg [Hv Hp]]].
+  exists g, (exp g). split; [exact Hg|]. split; [exact Hv|]. split; [apply ln_exp|]. split.
+  - intros M HM. split; intros H.
+    + rewrite <- (ln_exp g). apply ln_increasing; assumption.
+    + rewrite <- (exp_ln M) by assumption. apply exp_increasing; assumption.
+  - intros y gy vy Hgy Hvy. unfold gamma, rmap in Hvy. rewrite Hgy in Hvy. cbn [rbind nexp ROps] in Hvy. injection Hvy as <-.
+    split; intros H; [apply exp_lt_inv|apply exp_increasing]; assumption.
+Qed.
+
 (** ** Inv_GammaP: the guards *)
 Lemma inv_gammap_guards p a :
   (a <= 0 -> inv_gammap ROps p a = Exit) /\
